@@ -106,6 +106,15 @@ def chart_of(h, j):
         return np.delete(h / h[..., j:j + 1], j, axis=-1)
 
 
+def _hp(x):
+    """projective.Point from the caller's own array of homogeneous coordinates, which the
+    caller overwrites as soon as the point exists"""
+    h = gen.Handed()
+    pt = projective.Point(h.give(x))
+    h.scribble()
+    return pt
+
+
 # ---------------------------------------------------------------------------
 @st.composite
 def roundtrip_case(draw):
@@ -190,7 +199,7 @@ def body_roundtrip(case, ctx):
     ctx.check(np.array_equal(P.proj_data, h), "Point(a, chart_index=i) data", got=P.proj_data)
     ctx.close("Point(a, chart).affine_coords(chart)", P.affine_coords(chart_index=i), a, **rt)
     ctx.check(np.all(P.in_affine_chart(i)), "in_affine_chart of a chart point")
-    P2 = projective.Point(x.copy())
+    P2 = _hp(x)
     ctx.close("Point(lambda h).affine_coords(chart)", P2.affine_coords(chart_index=i), a, **rt)
     inc = P2.in_affine_chart(j)
     ctx.check(np.shape(inc) == shape and np.array_equal(inc, x[..., j] != 0),
@@ -261,7 +270,7 @@ def body_outside(case, ctx):
     n, shape, cplx = case["n"], tuple(case["shape"]), case["cplx"]
     x = _hom(case)
     _labels(ctx, n, shape, cplx)
-    P = projective.Point(x.copy())
+    P = _hp(x)
     col = case["col"] and len(shape) >= 1
     ctx.label("layout=col" if col else "layout=row")
     tiny = np.abs(x) < 1e-299
@@ -422,7 +431,7 @@ def body_linmap(case, ctx):
         want = a @ L
     else:
         want = a @ L.T          # x -> L x on column vectors
-    img = T @ projective.Point(x.copy())
+    img = T @ _hp(x)
     ctx.check(isinstance(img, projective.Point) and img.shape == shape, "image is a Point",
               got=type(img).__name__)
     sc = float(np.max(np.abs(L))) * max(1.0, float(np.max(np.abs(a), initial=0.0))) * n
@@ -453,7 +462,7 @@ def body_translation(case, ctx):
     T = projective.affine_translation(t.copy(), chart_index=i)
     ctx.check(isinstance(T, projective.Transformation) and T.matrix.shape == (n + 1, n + 1),
               "affine_translation returns a transformation of P^n", got=np.shape(T.matrix))
-    img = T @ projective.Point(x.copy())
+    img = T @ _hp(x)
     ctx.check(np.all(img.in_affine_chart(i)), "the chart is preserved")
     ctx.close("affine_translation acts as x + t in the chart",
               img.affine_coords(chart_index=i), a + t, rtol=1e-12, atol=1e-13)
@@ -464,7 +473,7 @@ def body_translation(case, ctx):
     d = np.insert(a, i, 0.0, axis=-1)
     if np.all(np.sum(np.abs(d), axis=-1) > 0):
         ctx.label("points-at-infinity")
-        imd = np.asarray((T @ projective.Point(d.copy())).proj_data)
+        imd = np.asarray((T @ _hp(d)).proj_data)
         ctx.close("points at infinity of the chart are fixed", imd, d, rtol=1e-12, atol=1e-13)
 
 
@@ -477,7 +486,15 @@ def hyperplane_case(draw):
     length = draw(st.one_of(fl(0.1, 10.0), st.just(1.0)))
     k = draw(st.integers(1, 4))
     ys = draw(coords(k * m))
-    return dict(n=n, normal=[length * c for c in d], ys=ys, k=k)
+    normal = [length * c for c in d]
+    pack = "ndarray"
+    if draw(st.integers(0, 3)) == 0:
+        # a lattice normal, in integer packagings too
+        normal = [float(draw(st.integers(-3, 3))) for _ in range(m)]
+        if not any(normal):
+            normal[draw(st.integers(0, m - 1))] = 1.0
+        pack = draw(st.sampled_from(["ndarray", "intarray", "intlist", "list"]))
+    return dict(n=n, normal=normal, ys=ys, k=k, pack=pack)
 
 
 def body_hyperplane(case, ctx):
@@ -492,16 +509,23 @@ def body_hyperplane(case, ctx):
         ctx.label("normal:first-negative")
     if nz == 1 and nv[0] == 0:
         ctx.label("chart!=0")
-    T = projective.hyperplane_coordinate_transform(nv.copy())
+    pack = case.get("pack", "ndarray")
+    arg = {"ndarray": lambda: nv.copy(), "intarray": lambda: nv.astype(np.int64),
+           "intlist": lambda: [int(x) for x in nv], "list": lambda: [float(x) for x in nv]}[pack]()
+    keep = np.array(arg, copy=True)
+    T = projective.hyperplane_coordinate_transform(arg)
+    ctx.label("normal-packaging=" + pack)
+    ctx.check(np.array_equal(np.asarray(arg), keep), "hyperplane_coordinate_transform leaves the "
+              "caller's normal as it was", before=keep, after=np.asarray(arg))
     M = np.asarray(T.matrix)
     ctx.check(M.shape == (m, m), "shape", got=M.shape)
     ctx.close("orthogonal: M M^T = I", M @ M.T, np.eye(m), rtol=0, atol=1e-12)
     nhat = nv / np.linalg.norm(nv)
     ynorm = np.maximum(np.linalg.norm(Y, axis=-1), 1e-300)
     X = Y - (Y @ nhat)[:, None] * nhat[None, :]        # points of {x.n = 0}
-    imgX = np.asarray((T @ projective.Point(X.copy())).proj_data)
+    imgX = np.asarray((T @ _hp(X)).proj_data)
     ctx.small("{x.n=0} is sent to {x0=0}", imgX[..., 0], 1e-12 * np.maximum(ynorm, 1.0))
-    imgY = np.asarray((T @ projective.Point(Y.copy())).proj_data)
+    imgY = np.asarray((T @ _hp(Y)).proj_data)
     ctx.close("|x0 of the image| = |x.n|/|n|", np.abs(imgY[..., 0]), np.abs(Y @ nhat),
               rtol=1e-12, atol=1e-12 * float(np.max(ynorm)))
     ctx.close("norms preserved", np.linalg.norm(imgY, axis=-1), np.linalg.norm(Y, axis=-1),
@@ -510,7 +534,7 @@ def body_hyperplane(case, ctx):
     off = np.abs(Y @ nhat) > 1e-6 * ynorm
     if np.any(off):
         ctx.label("off-hyperplane")
-        Q = T @ projective.Point(Y[off].copy())
+        Q = T @ _hp(Y[off])
         ctx.check(np.all(Q.in_affine_chart(0)), "image lies in chart 0")
 
 
